@@ -62,23 +62,40 @@ theorem inv_init (vo tx hh : Bool) (pn : Nat) : Inv (initState vo tx hh pn) :=
   ⟨fun _ => ⟨rfl, rfl, rfl⟩, fun h => (by cases h), fun h => (by cases h), fun _ h => (by cases h), ping_preTable⟩
 
 /-- states of a connection: initial, after any handled message (whatever the bytes), as seen while
-    a message is incomplete, after the connection closed, and after `RequestBlock` on a ready node
-    (the only outside call that changes the table; `nextNode` only hands out ready nodes). -/
+    a message is incomplete, after the connection closed, after `RequestBlock` on a ready node
+    (the only outside call that changes the table; `nextNode` only hands out ready nodes) and after
+    `CancelBlockRequest`. -/
 inductive Reach (e : Env) : State → Prop
   | init (vo tx hh : Bool) (pn : Nat) : Reach e (initState vo tx hh pn)
   | step {s s' : State} (inp : Bytes) : Reach e s → (handleMessage e s inp).state = some s' → Reach e s'
   | reqBlock {s : State} (h : Bytes) : Reach e s → s.ready = true → Reach e (requestBlock s h).1
+  | cancel {s : State} (h : Bytes) : Reach e s → Reach e (cancelBlock s h).1
 
 theorem requestBlock_frame (s : State) (h : Bytes) (hr : s.verified = true) : Frame s (requestBlock s h).1 := by
   unfold requestBlock
   exact ⟨fun hv => (by rw [hr] at hv; cases hv), rfl, rfl, rfl, rfl, rfl, id, id,
-    fun c hc => lookupCmd_set_ne _ _ _ _ (fun hh => hc hh.symm)⟩
+    fun c hc => lookupCmd_set_ne _ _ _ _ (fun hh => hc hh.symm),
+    fun _ => ⟨fun _ => ⟨rfl, rfl⟩, fun h => (by cases h), fun _ => rfl⟩⟩
+
+theorem cancelBlock_frame (s : State) (h : Bytes) : Frame s (cancelBlock s h).1 := by
+  unfold cancelBlock
+  split
+  · exact Frame.refl s
+  · split
+    · exact Frame.refl s
+    · split
+      · exact ⟨fun _ => ⟨rfl, rfl⟩, rfl, rfl, rfl, rfl, rfl, id, id, fun _ _ => rfl,
+          fun _ => ⟨fun h => (by cases h), fun h => (by cases h), fun h => (by cases h)⟩⟩
+      · rename_i hr
+        exact ⟨fun _ => ⟨rfl, rfl⟩, rfl, rfl, rfl, rfl, rfl, id, id, fun _ _ => rfl,
+          fun hb => ⟨fun h => (by cases h), hb.reader, fun h => (by cases h)⟩⟩
 
 theorem reach_inv (e : Env) (s : State) (h : Reach e s) : Inv s := by
   induction h with
   | init vo tx hh pn => exact inv_init vo tx hh pn
   | step inp _ hs ih => exact handleMessage_inv e _ inp ih _ hs
   | reqBlock h _ hr ih => exact ih.frame (requestBlock_frame _ h (ih.rdy hr))
+  | cancel h _ ih => exact ih.frame (cancelBlock_frame _ h)
 
 /-- **C13 (ready ⇒ verified).** In every reachable state a node that is ready — the only nodes
     `nextNode` hands out for header, transaction and block requests — has completed the handshake
